@@ -241,14 +241,14 @@ PROPS["C12"] = dict(
                          "cache triples sampled: 4K:32K:64K, 6K:48K:96K (derived constants not powers of two), 16K:256K:1M, 32K:1280K:54M",
                          "two compilers / optimisation levels (gcc -O1/-O2/-O3, clang-14 -O2) are part of the build matrix so that code whose result depends on undefined behaviour shows up as a digest mismatch"],
     stages=lambda tier: [
-        _c12("small-asan", (1500, 420), (12000, 1200)),
-        _c12("host-asan", (1500, 420), (12000, 1200)),
-        _c12("small-nosse-ts-asan", (1500, 420), (12000, 1200)),
-        _c12("host-gomp-asan", (1500, 420), (12000, 1200), env={"OMP_NUM_THREADS": "4"}),
-        _c12("odd-asan", (1500, 420), (12000, 1200)),
-        _c12("small-gomp-asan", (1500, 420), (12000, 1200), env={"OMP_NUM_THREADS": "3"}, workers=8),
-        _c12("small-O3-plain", (1500, 420), (12000, 1200)),
-        _c12("host-clang-asan", (1500, 420), (12000, 1200)),
+        _c12("small-asan", (2500, 420), (12000, 1200)),
+        _c12("host-asan", (2500, 420), (12000, 1200)),
+        _c12("small-nosse-ts-asan", (2500, 420), (12000, 1200)),
+        _c12("host-gomp-asan", (2500, 420), (12000, 1200), env={"OMP_NUM_THREADS": "4"}),
+        _c12("odd-asan", (2500, 420), (12000, 1200)),
+        _c12("small-gomp-asan", (2500, 420), (12000, 1200), env={"OMP_NUM_THREADS": "3"}, workers=8),
+        _c12("small-O3-plain", (2500, 420), (12000, 1200)),
+        _c12("host-clang-asan", (2500, 420), (12000, 1200)),
     ] + ([
         _c12("mid-debug-asan", (0, 420), (12000, 1200)),
         _c12("host-nosse-plain", (0, 420), (12000, 1200)),
@@ -352,8 +352,8 @@ PROPS["C15"] = dict(
     assumptions=MODEL + ["TSan sees only races between accesses the workload performed; calibrated: same harness on the cache-enabled configuration gives > 200 reports"],
     technique="runtime monitoring: ThreadSanitizer on a pthread stress harness + reference-model and sequential-replay oracles",
     stages=[
-        S("small-ts-tsan", "threads", ["--fam", THR_FAM], (60, 160), (1500, 400), timeout=300),
-        S("host-ts-tsan", "threads", ["--fam", THR_FAM], (20, 260), (400, 700), timeout=300),
+        S("small-ts-tsan", "threads", ["--fam", THR_FAM], (160, 160), (1500, 400), timeout=300),
+        S("host-ts-tsan", "threads", ["--fam", THR_FAM], (50, 260), (400, 700), timeout=300),
     ],
     require_tags={"quick": ["T=2", "T=16", "overlapping_call_pairs=10-99"], "thorough": ["T=2", "T=16"]},
 )
